@@ -889,6 +889,12 @@ func runC14(c *h.Ctx) {
 		{"$.a[$.recs[0 to 1] ? (exists(@.pos)).pos]", `{"a":[10,20,30],"recs":[{"pos":1},{"x":0}]}`, "[#20]"},
 		{"$.a[0 to $.idx[0, 1] ? (@ >= 2)]", `{"a":[10,20,30],"idx":[2,0]}`, "[#10 | #20 | #30]"},
 		{"$.a[$.idx[last, 0] ? (@ > 0)]", `{"a":[10,20,30],"idx":[1,0]}`, "[#20]"},
+		// a subscript expression that fails (quietly, inside a filter) for one item
+		// after it had produced a number: the next item's subscript starts afresh
+		{"$[*] ? (@.a[+@.i] == 10).id", `[{"id":"bad","a":[10,20],"i":[1,"x"]},{"id":"zero","a":[10,20],"i":0}]`, `["zero"]`},
+		{"$[*] ? (@.a[+@.i] == 20).id", `[{"id":"bad","a":[10,20],"i":[1,"x"]},{"id":"none","a":[10,20],"i":[]}]`, `[]`},
+		{"$[*] ? (@.a[@.i[*].double()] == 20).id", `[{"id":"bad","a":[10,20],"i":[1,"x"]},{"id":"one","a":[10,20],"i":[1]},{"id":"none","a":[10,20],"i":[]}]`, `["one"]`},
+		{"$[*] ? (exists(@.a[0 to @.i[*].double()])).id", `[{"id":"bad","a":[10,20],"i":[1,"x"]},{"id":"none","a":[10,20],"i":[]},{"id":"one","a":[10,20],"i":[1]}]`, `["one"]`},
 	}
 	for i, nc := range nested {
 		if !c.Mine(i) {
